@@ -215,9 +215,45 @@ def struct_invariants(func):
     return out
 
 
+_PROG = [None]
+
+
+def param_nonneg_hyps(func):
+    """an int parameter is non-negative when every call site passes a value that is provably
+    non-negative there (one interprocedural step; the function must have callers)"""
+    prog = _PROG[0]
+    if prog is None:
+        return []
+    out = []
+    for i, p in enumerate(func.params):
+        if p["ty"] not in ("int", "long"):
+            continue
+        sites = []
+        for g in prog.funcs.values():
+            for c in g.calls(func.name):
+                if prog.resolve(g, func.name) is func and i < len(c["args"]):
+                    sites.append((g, c))
+        if not sites or len(sites) > 6:
+            continue
+        ok = True
+        for g, c in sites:
+            a = linearize(strip_casts(c["args"][i]))
+            if a is None:
+                ok = False
+                break
+            h = hyps_at(g, c)
+            flat = [x for x in h if not isinstance(x, tuple)]
+            if prove_le(Lin(k=0), a, h + nonneg_atoms(flat + [a])) != PROVEN:
+                ok = False
+                break
+        if ok:
+            out.append(Lin({p["name"]: 1}))
+    return out
+
+
 def prove_index(func, use, idx_lin, limit_lin, extra=None):
     """idx <= limit ?"""
-    hyps = hyps_at(func, use, (extra or []) + struct_invariants(func))
+    hyps = hyps_at(func, use, (extra or []) + struct_invariants(func) + param_nonneg_hyps(func))
     names = [a for a in idx_lin.c if a.isidentifier()]
     for v, K, consts in guarded_inc_hyps(func, use, names):
         if all(prove_le(Lin(k=c), K, hyps) == PROVEN for c in consts):
@@ -468,7 +504,7 @@ ASSIGN_OPS_B = ("=", "+=", "-=", "*=", "/=", "%=", "|=", "&=", "^=", "<<=", ">>=
 
 
 def path_states(func, target_nid, init_hyps=None, max_paths=4000, header_hyps=None,
-                assume_fields=None, base_case=False):
+                assume_fields=None, base_case=False, call_writes=None):
     """For every acyclic path from the entry to the event: (subst, hyps, items).  Scalar
     locals, globals and `param->field` lvalues are tracked by substitution, so plain atoms
     always denote *initial* values and facts never go stale; compound atoms (`(*loc)`,
@@ -553,6 +589,14 @@ def path_states(func, target_nid, init_hyps=None, max_paths=4000, header_hyps=No
                         nm = a["e"]["name"]
                         epoch[nm] = epoch.get(nm, 0) + 1
                         subst[nm] = Lin({"?%s@%d" % (nm, it[1]): 1})
+                if call_writes:
+                    # a callee that stores fields of a struct passed by pointer: their values
+                    # are unknown afterwards (and the path is marked: a failed goal on it is
+                    # `not decided`, not a contradiction)
+                    for nm in call_writes(n):
+                        epoch[nm] = epoch.get(nm, 0) + 1
+                        subst[nm] = Lin({"?%s@c%d" % (nm, it[1]): 1})
+                        subst["__havoc__"] = Lin(k=1)
                 continue
             tgt = op = rhs = None
             if n["k"] == "bin" and n["op"] in ("=", "+=", "-="):
